@@ -181,7 +181,7 @@ Qed.
 
 Definition storing (g : rule) : bool :=
   match g with
-  | RPol PPython | RPol (PAny _) | RPol (PTyped _ _) | RPol PReadOnly | RDunder => true
+  | RPol PPython | RPol (PAny _) | RPol (PTyped _ _) | RPol (PReadOnly _) | RDunder => true
   | _ => false
   end.
 
@@ -252,9 +252,13 @@ Section Run.
     class_ok (fst d) (o_out ob) = true /\ value_ok (fst d) (o_out ob) = true /\
     stored_ok (snd d) (o_stored ob) = true.
   Proof.
-    intros s n p g v [->|[-> ->]]; [destruct p|]; simpl; try (fin; fail).
-    - unfold defined. destruct (assoc n (s_od s)) as [w|] eqn:E; [destruct (Z.eqb w VUndef)|]; fin.
+    intros s n p g v [->|[-> ->]]; [destruct p as [ |d| |d|c|k|k d]|]; simpl; try (fin; fail).
+    - (* ReadOnly *)
+      destruct (negb (Z.eqb d VUndef)); simpl; [fin|].
+      unfold defined. destruct (assoc n (s_od s)) as [w|] eqn:E; [destruct (Z.eqb w VUndef)|]; fin.
       rewrite E. fin.
+    - (* Event *)
+      destruct k as [k|]; [destruct (validate k v)|]; fin.
     - destruct (Z.eqb v VUndef); [|destruct (validate k v)]; fin.
   Qed.
 
@@ -284,6 +288,7 @@ Section Run.
            | |- context [match assoc n (s_od s) with _ => _ end] => destruct (assoc n (s_od s)) eqn:?; simpl
            | |- context [if ?b then _ else _] => destruct b eqn:?; simpl
            | |- context [match validate ?k ?v with _ => _ end] => destruct (validate k v) eqn:?; simpl
+           | |- context [match ?k with Some _ => _ | None => _ end] => is_var k; destruct k; simpl
            end.
 
   Lemma handler_keeps : forall o s p, is_access o = true ->
@@ -313,6 +318,7 @@ Section Run.
              | |- context [match assoc n (s_od s) with _ => _ end] => destruct (assoc n (s_od s)) eqn:?; simpl
              | |- context [if ?b then _ else _] => destruct b eqn:?; simpl
              | |- context [match validate ?k ?v with _ => _ end] => destruct (validate k v) eqn:?; simpl
+             | |- context [match ?k with Some _ => _ | None => _ end] => is_var k; destruct k; simpl
              end; intros Hs; try (eapply Hold; eauto; fail);
       rewrite ?assoc_adel, ?name_eqb_refl in Hs; try discriminate; eauto.
   Qed.
@@ -830,8 +836,10 @@ Section Clauses.
       destruct (assoc n (s_ctd s)) as [p|]; [destruct p; reflexivity|].
       destruct (dunder n); [simpl; auto|]. destruct (first_match n pt) as [[q p]|]; [destruct p; reflexivity|simpl; auto].
     - assert (H : forall s1 p, o_stored (snd (setattr s1 n p v)) = assoc n (s_od (fst (setattr s1 n p v)))).
-      { intros s1 p. destruct p; simpl; auto.
-        - destruct (assoc n (s_od s1)) as [w|]; [destruct (Z.eqb w VUndef)|]; reflexivity.
+      { intros s1 p. destruct p as [ |d| |d|c|k|k d]; simpl; auto.
+        - destruct (negb (Z.eqb d VUndef)); [reflexivity|].
+          destruct (assoc n (s_od s1)) as [w|]; [destruct (Z.eqb w VUndef)|]; reflexivity.
+        - destruct k as [k|]; [destruct (validate k v)|]; reflexivity.
         - destruct (Z.eqb v VUndef); [|destruct (validate k v)]; reflexivity. }
       destruct (assoc n (s_itd s)); [apply H|]. destruct (assoc n (s_ctd s)); [apply H|].
       destruct (dunder n); [apply H|]. destruct (first_match n pt) as [[q p]|]; [apply H|reflexivity].
@@ -858,8 +866,10 @@ Section Clauses.
       destruct (assoc n (s_ctd s)) as [p|]; [destruct p; reflexivity|].
       destruct (dunder n); [reflexivity|]. destruct (first_match n pt) as [[q p]|]; [destruct p; reflexivity|reflexivity].
     - assert (H : forall s1 p, s_itd (fst (setattr s1 n p v)) = s_itd s1).
-      { intros s1 p. destruct p; simpl; auto.
-        - destruct (assoc n (s_od s1)) as [w|]; [destruct (Z.eqb w VUndef)|]; reflexivity.
+      { intros s1 p. destruct p as [ |d| |d|c|k|k d]; simpl; auto.
+        - destruct (negb (Z.eqb d VUndef)); [reflexivity|].
+          destruct (assoc n (s_od s1)) as [w|]; [destruct (Z.eqb w VUndef)|]; reflexivity.
+        - destruct k as [k|]; [destruct (validate k v)|]; reflexivity.
         - destruct (Z.eqb v VUndef); [|destruct (validate k v)]; reflexivity. }
       destruct (assoc n (s_itd s)) eqn:E; [apply H|]. destruct (assoc n (s_ctd s)); [apply H|].
       destruct (dunder n); [rewrite H; reflexivity|].
@@ -892,7 +902,7 @@ Section Clauses.
   Qed.
 
   (* --- readonly_exactly_one_defining_assignment --- *)
-  Lemma readonly_once : forall s ls n v w, Inv s ls -> gov s n = RPol PReadOnly ->
+  Lemma readonly_once : forall s ls n v w, Inv s ls -> gov s n = RPol (PReadOnly VUndef) ->
     defined (assoc n (s_od s)) = false -> v <> VUndef ->
     let s1 := fst (step pt s (OSet n v)) in
     o_out (snd (step pt s (OSet n v))) = Done /\
@@ -906,7 +916,7 @@ Section Clauses.
     simpl op_name in *. rewrite Hg in *. cbn [demand fst snd] in S1, S3. rewrite Hd in S1, S3. cbn [demand fst snd] in S1, S3.
     apply class_done in S1. apply stored_some in S3. rewrite (step_stored_set s n v) in S3. fold s1 in S3.
     destruct (step_ok ct0 pt s ls (OSet n v) HI eq_refl) as [_ HI1]. fold s1 in HI1.
-    assert (Hg1 : gov s1 n = RPol PReadOnly) by (unfold s1; rewrite gov_access_stable; auto).
+    assert (Hg1 : gov s1 n = RPol (PReadOnly VUndef)) by (unfold s1; rewrite gov_access_stable; auto).
     assert (Hdef : defined (Some v) = true) by (simpl; apply negb_true_iff; apply Z.eqb_neq; exact Hv).
     pose proof (step_demand s1 _ (OGet n) HI1 eq_refl) as (G1 & G2 & _).
     pose proof (step_demand s1 _ (OSet n w) HI1 eq_refl) as (T1 & _ & T3).
@@ -936,7 +946,7 @@ Section Clauses.
   Qed.
 
   (* --- event_write_only --- *)
-  Lemma event_wo : forall s ls n v, Inv s ls -> gov s n = RPol PEvent ->
+  Lemma event_wo : forall s ls n v, Inv s ls -> gov s n = RPol (PEvent None) ->
     o_out (snd (step pt s (OSet n v))) = Done /\
     (assoc n (s_od s) = None -> o_out (snd (step pt s (OGet n))) = Raise AttributeError) /\
     assoc n (s_od (fst (step pt s (OSet n v)))) = assoc n (s_od s).
@@ -947,6 +957,41 @@ Section Clauses.
     simpl op_name in *. rewrite Hg in *. cbn [demand fst snd] in G1, S1, S3.
     repeat split; auto using class_raise, class_done.
     rewrite <- (step_stored_set s n v). apply stored_some in S3. exact S3.
+  Qed.
+
+  (* ReadOnly(d) with a given default: the default is the defining value, nothing can be assigned *)
+  Lemma readonly_default_fixed : forall s ls n d v, Inv s ls -> gov s n = RPol (PReadOnly d) -> d <> VUndef ->
+    (assoc n (s_od s) = None -> o_out (snd (step pt s (OGet n))) = Val d) /\
+    o_out (snd (step pt s (OSet n v))) = Raise TraitError /\
+    o_out (snd (step pt s (ODel n))) = Raise TraitError /\
+    assoc n (s_od (fst (step pt s (OSet n v)))) = assoc n (s_od s).
+  Proof.
+    intros s ls n d v HI Hg Hd.
+    pose proof (step_demand s ls (OGet n) HI eq_refl) as (G1 & G2 & _).
+    pose proof (step_demand s ls (OSet n v) HI eq_refl) as (S1 & _ & S3).
+    pose proof (step_demand s ls (ODel n) HI eq_refl) as (D1 & _ & _).
+    simpl op_name in *. rewrite Hg in *. cbn [demand fst snd] in G1, G2, S1, S3, D1.
+    assert (E : negb (Z.eqb d VUndef) = true) by (apply negb_true_iff; apply Z.eqb_neq; exact Hd).
+    rewrite E in S1, S3. cbn [orb fst snd] in S1, S3.
+    repeat split; auto using class_raise.
+    - intro Hn. rewrite Hn in G1, G2. auto using class_val.
+    - rewrite <- (step_stored_set s n v). apply stored_some in S3. exact S3.
+  Qed.
+
+  (* an Event with a value type: write-only, and fires only for values its validator accepts *)
+  Lemma event_typed : forall s ls n k v, Inv s ls -> gov s n = RPol (PEvent (Some k)) ->
+    o_out (snd (step pt s (OSet n v))) = (match validate k v with Some _ => Done | None => Raise TraitError end) /\
+    (assoc n (s_od s) = None -> o_out (snd (step pt s (OGet n))) = Raise AttributeError) /\
+    assoc n (s_od (fst (step pt s (OSet n v)))) = assoc n (s_od s).
+  Proof.
+    intros s ls n k v HI Hg.
+    pose proof (step_demand s ls (OGet n) HI eq_refl) as (G1 & _ & _).
+    pose proof (step_demand s ls (OSet n v) HI eq_refl) as (S1 & _ & S3).
+    simpl op_name in *. rewrite Hg in *. cbn [demand fst snd] in G1, S1, S3.
+    repeat split; auto using class_raise.
+    - destruct (validate k v); cbn [fst] in S1; auto using class_raise, class_done.
+    - rewrite <- (step_stored_set s n v).
+      destruct (validate k v); cbn [snd] in S3; apply stored_some in S3; exact S3.
   Qed.
 
   (* in a state reached by a clean history nothing is stored under a non-storing policy *)
@@ -1034,7 +1079,7 @@ Lemma strict_default : forall n,
 Proof.
   intros n H1 H2 H3 H4. unfold spec_rule, class_rule.
   replace (vis_nth (visible (roots ++ [])) 1) with
-    ([(n_trait_added, PEvent); (n_trait_modified, PEvent)],
+    ([(n_trait_added, PEvent None); (n_trait_modified, PEvent None)],
      [([], PDisallow); (n_traits_cache_, PAny VNone); ([], PPython)]) by (vm_compute; reflexivity).
   cbn [fst snd assoc best]. rewrite H1, H2, H3, H4. cbn. reflexivity.
 Qed.
@@ -1046,7 +1091,7 @@ Lemma private_default : forall n,
 Proof.
   intros n H1 H2 H3 H4. unfold spec_rule, class_rule.
   replace (vis_nth (visible (roots ++ [])) 2) with
-    ([(n_trait_added, PEvent); (n_trait_modified, PEvent)],
+    ([(n_trait_added, PEvent None); (n_trait_modified, PEvent None)],
      [([US], PAny VNone); ([], PDisallow); (n_traits_cache_, PAny VNone); ([], PPython)]) by (vm_compute; reflexivity).
   cbn [fst snd assoc best]. rewrite H1, H2, H3, H4. destruct (is_prefix [US] n); cbn; reflexivity.
 Qed.
@@ -1058,7 +1103,7 @@ Lemma plain_default : forall n,
 Proof.
   intros n H1 H2 H3 H4. unfold spec_rule, class_rule.
   replace (vis_nth (visible (roots ++ [])) 0) with
-    ([(n_trait_added, PEvent); (n_trait_modified, PEvent)],
+    ([(n_trait_added, PEvent None); (n_trait_modified, PEvent None)],
      [(n_traits_cache_, PAny VNone); ([], PPython)]) by (vm_compute; reflexivity).
   cbn [fst snd assoc best]. rewrite H1, H2, H3, H4. cbn. reflexivity.
 Qed.
@@ -1069,7 +1114,7 @@ Lemma stale_value_refutes : exists ops,
   law_hist (spec_rule [mkClass [] [0%nat]] 3) 0 l_init
     (run (snd (class_tables [mkClass [] [0%nat]] 3)) (init_state (fst (class_tables [mkClass [] [0%nat]] 3))) ops)
   <> [].
-Proof. exists [OSet n_ab 5; OAdd n_ab PEvent; OGet n_ab]. vm_compute. discriminate. Qed.
+Proof. exists [OSet n_ab 5; OAdd n_ab (PEvent None); OGet n_ab]. vm_compute. discriminate. Qed.
 
 (* ------------------------------------------------------------------ *)
 (* Part 6: a second instance of the same class (shared cache) and classes created later *)
@@ -1304,4 +1349,85 @@ Lemma mro_refutes : exists h c ops,
 Proof.
   exists [mkClass [] [0%nat]; mkClass [] [3%nat; 1%nat]], 4%nat, [OSet n_ab 5].
   vm_compute. split; [reflexivity|discriminate].
+Qed.
+
+(* ------------------------------------------------------------------ *)
+(* Part 8: two instances of one class, operations interleaved *)
+
+Lemma law_tag2_nil : forall mr sr h i la lb, law_tag2 mr sr i la lb h = [] <-> law_hist2 mr i la lb h = [].
+Proof.
+  intros mr sr. induction h as [|[[w o] ob] r IH]; intros i la lb; simpl; [tauto|].
+  destruct (law_step mr (if w then lb else la) o ob) as [|z l] eqn:E; simpl.
+  - apply IH.
+  - split; intro H; exfalso.
+    + destruct (rule_eqb (mr (op_name o)) (sr (op_name o))); simpl in H; discriminate.
+    + discriminate.
+Qed.
+
+Lemma law_hist2_ext : forall (r1 r2 : name -> rule), (forall n, r1 n = r2 n) ->
+  forall h i la lb, law_hist2 r1 i la lb h = law_hist2 r2 i la lb h.
+Proof.
+  intros r1 r2 He. induction h as [|[[w o] ob] r IH]; intros i la lb; simpl; auto.
+  rewrite IH. f_equal. f_equal. unfold law_step, governing. rewrite He. reflexivity.
+Qed.
+
+Definition st_of (ctd : ctab) (x : inst) : state := mkState ctd (fst x) (snd x).
+
+Definition clean_step2 (s : state2) (w : bool) (o : op) : bool :=
+  let '(ctd, a, b) := s in clean_step (st_of ctd (if w then b else a)) o.
+Fixpoint clean_run2 (pt : ptab) (s : state2) (ops : list (bool * op)) : bool :=
+  match ops with
+  | [] => true
+  | (w, o) :: r => clean_step2 s w o && clean_run2 pt (fst (step2 pt s w o)) r
+  end.
+
+(* the other instance only sees the class dictionary grow *)
+Lemma Inv_other : forall ct0 pt s' ls' ctd x lx,
+  Inv ct0 pt s' ls' -> Inv ct0 pt (st_of ctd x) lx -> Inv ct0 pt (st_of (s_ctd s') x) lx.
+Proof.
+  intros ct0 pt s' ls' ctd x lx H1 H2. constructor; simpl.
+  - apply (inv_itd _ _ _ _ H2).
+  - apply (inv_od _ _ _ _ H2).
+  - apply (inv_c1 _ _ _ _ H1).
+  - apply (inv_c2 _ _ _ _ H1).
+  - intros m v Hm. apply (inv_st _ _ _ _ H2 m v Hm).
+Qed.
+
+Lemma run2_law_inv : forall ct0 pt ops ctd a b la lb i,
+  Inv ct0 pt (st_of ctd a) la -> Inv ct0 pt (st_of ctd b) lb ->
+  clean_run2 pt (ctd, a, b) ops = true ->
+  law_hist2 (model_rule ct0 pt) i la lb (run2 pt (ctd, a, b) ops) = [].
+Proof.
+  intros ct0 pt. induction ops as [|[w o] r IH]; intros ctd a b la lb i Ha Hb Hc; simpl; auto.
+  simpl in Hc. apply andb_true_iff in Hc. destruct Hc as [Hc1 Hc2].
+  destruct w; simpl in *.
+  - (* the second instance acts *)
+    destruct (step_ok ct0 pt (st_of ctd b) lb o Hb Hc1) as [Hl Hn].
+    unfold st_of in *. destruct (step pt (mkState ctd (fst b) (snd b)) o) as [s' ob] eqn:E. simpl in *.
+    rewrite Hl. simpl. apply IH; auto.
+    + apply (Inv_other ct0 pt s' _ ctd a la Hn Ha).
+    + destruct s'; exact Hn.
+  - destruct (step_ok ct0 pt (st_of ctd a) la o Ha Hc1) as [Hl Hn].
+    unfold st_of in *. destruct (step pt (mkState ctd (fst a) (snd a)) o) as [s' ob] eqn:E. simpl in *.
+    rewrite Hl. simpl. apply IH; auto.
+    + destruct s'; exact Hn.
+    + apply (Inv_other ct0 pt s' _ ctd b lb Hn Hb).
+Qed.
+
+Lemma law_two_instances : forall h c ops i,
+  clean_run2 (snd (class_tables h c)) (init_state2 (fst (class_tables h c))) ops = true ->
+  law_hist2 (spec_rule h c) i l_init l_init
+            (run2 (snd (class_tables h c)) (init_state2 (fst (class_tables h c))) ops) = [].
+Proof.
+  intros h c ops i Hc. rewrite <- (law_hist2_ext _ _ (class_tables_rule h c)).
+  apply run2_law_inv; auto; apply Inv_init.
+Qed.
+
+(* with the second instance idle the two-instance run is the one-instance run *)
+Lemma run2_single : forall pt ops ctd a b,
+  map (fun x => (snd (fst x), snd x)) (run2 pt (ctd, a, b) (map (pair false) ops)) = run pt (st_of ctd a) ops.
+Proof.
+  intros pt. induction ops as [|o r IH]; intros ctd a b; simpl; auto.
+  unfold st_of. destruct (step pt (mkState ctd (fst a) (snd a)) o) as [s' ob] eqn:E. simpl.
+  f_equal. rewrite IH. unfold st_of. destruct s'; reflexivity.
 Qed.
